@@ -23,10 +23,14 @@ LIT = ["lt", "gt", "amp", "sl", "ex", "hy", "eq", "dq", "sq", "lb", "rb", "nl", 
 def run(ctx):
     quick = ctx.tier == "quick"
     rnd = random.Random(ctx.seed)
-    cfg = dict(lit=LIT if not quick else LIT, shapes=["call", "strbrace", "dictlit", "multiline", "strdollar"] if quick else list(IC.SHAPES)[:9] + ["multiline"],
+    cfg = dict(lit=LIT if not quick else LIT, shapes=["call", "strbrace", "dictlit", "multiline", "strdollar", "samecall"] if quick else list(IC.SHAPES)[:9] + ["multiline", "samecall"],
                contexts=["textmode"], maxparts=3 if quick else 4, maxdol=2 if quick else 3, maxstack=0)
     recs = IC.run_spec(ctx, "InterpTextMode", cfg)
     IC.replay(ctx, recs, "textmode")
+    # longer texts over a small alphabet: the same expression text more than once, '$' runs at line ends
+    cfg = dict(lit=["nl", "x", "lt"], shapes=["call", "samecall"], contexts=["textmode"], maxparts=4, maxdol=2 if quick else 3, maxstack=0)
+    recs = IC.run_spec(ctx, "InterpTextMode2", cfg)
+    IC.replay(ctx, recs, "textmode2")
     markup_runs(ctx, rnd)
     ctx.exhaustive = True
     ctx.rule = ("all part sequences up to the bound over 15 literal classes (markup characters, both quotes, braces, LF, "
@@ -90,6 +94,10 @@ def markup_runs(ctx, rnd):
                 return codecs.BOM_UTF16_LE + text.encode(enc)
             if enc == "gb18030":
                 return b"\x84\x31\x95\x33" + text.encode(enc)
+            if enc == "utf-16-be":
+                return codecs.BOM_UTF16_BE + text.encode(enc)
+            if enc == "utf-32-be":
+                return codecs.BOM_UTF32_BE + text.encode(enc)
             return text.encode(enc)
         seqs = list(itertools.permutations(encs, 2)) + [("utf-8", "utf-16", "utf-8"), ("utf-16", "utf-8-sig", "utf-32", "utf-8")]
         for seq in seqs:
@@ -117,6 +125,23 @@ def markup_runs(ctx, rnd):
                     ctx.violation("text file template, encodings %s: raised %s: %s" % (list(seq), type(e).__name__, e),
                                   dict(kind="textmode-file-history", encodings=list(seq)))
                     break
+        # a text file that starts with an XML declaration is an XML document: its line endings are kept -- whatever
+        # byte-order mark stands in front of the declaration
+        for enc in ("utf-8", "utf-8-sig", "utf-16", "utf-16-le", "utf-16-be", "utf-32", "utf-32-be"):
+            path = os.path.join(d, "x.txt")
+            src = '<?xml version="1.0"?>\r\nline ${x}\r\n\rend $$'
+            open(path, "wb").write(mk(enc, src))
+            n += 1
+            try:
+                t = PageTextTemplateFile(path)
+                got = t.render(x=val)
+                want = mk(enc, src.replace("${x}", val).replace("$$", "$"))
+                if got != want or t.content_type != "text/xml":
+                    ctx.violation("text file template starting with an XML declaration (%s, byte-order mark): returns %r, content_type %r; "
+                                  "expected %r, text/xml" % (enc, got, t.content_type, want), dict(kind="textmode-file-xml", encoding=enc))
+            except Exception as e:
+                ctx.violation("text file template with an XML declaration (%s): raised %s: %s" % (enc, type(e).__name__, e),
+                              dict(kind="textmode-file-xml", encoding=enc))
         for first, second in (("latin-1", "utf-16"), (None, "latin-1"), ("utf-16", None), ("utf-8", "cp1252")):
             path = os.path.join(d, "e.txt")
             open(path, "wb").write("a ${x} é".encode("utf-8"))
